@@ -10,7 +10,11 @@ pub(crate) type Notification<K, V> = (K, Arc<V>, EvictionReason);
 
 /// The background task responsible for calling user-provided eviction listeners.
 pub(crate) struct Notifier<K: Send, V: Send + Sync> {
+  #[cfg(not(excsn_fibre_verif))]
   handle: JoinHandle<()>,
+  /// `None` when the verification seam below runs the listener inline (no thread).
+  #[cfg(excsn_fibre_verif)]
+  handle: Option<JoinHandle<()>>,
   _sender: mpsc::BoundedSyncSender<(K, Arc<V>, EvictionReason)>,
   /// Verification seam H2: with background threads off the queue is drained by
   /// `verif_pump` on the caller's thread instead of by the notifier thread.
@@ -55,7 +59,7 @@ impl<K: Send, V: Send + Sync> Notifier<K, V> {
     #[cfg(excsn_fibre_verif)]
     if !crate::verif::background_threads() {
       let notifier = Self {
-        handle: thread::spawn(|| {}),
+        handle: None,
         _sender: tx.clone(),
         verif_inline: Some((parking_lot::Mutex::new(rx), listener)),
       };
@@ -71,6 +75,8 @@ impl<K: Send, V: Send + Sync> Notifier<K, V> {
       }
     });
 
+    #[cfg(excsn_fibre_verif)]
+    let handle = Some(handle);
     let notifier = Self {
       handle,
       // Store the sender in a Box<dyn Any> to type-erase it,
